@@ -329,6 +329,79 @@ def correspond(res):
             if v != 0:
                 viol("x_first_derivative with a zero argument is not 0", kind="xfd_zero", copula=desc, u=list(us), got=v)
 
+    # ---- parameters RE-ASSIGNED on an existing object (theta is a validated settable property, eta a plain attribute): after every
+    #      re-assignment the object must be THE copula of its current parameters at every entry point (bit-for-bit equal to a freshly
+    #      constructed one), its margins the identity, and it feeds Interval cases with the current parameters ------------------------
+    from rpylib.distribution.levycopula import ClaytonCopula
+    sequence = [(0.7, 0.3), (0.35, 0.3), (0.35, 0.9), (2.5, 0.1), (1.0, 1.0), (0.05, 0.5), (0.7, 0.3)]
+    for start in range(2):
+        th0, et0 = sequence[start]
+        obj = ClaytonCopula(theta=th0, eta=et0)
+        obj(np.array([1.0, -2.0]))                        # used once before the first re-assignment
+        for step, (th, et) in enumerate(sequence[start + 1:]):
+            if step % 2 == 0:
+                obj.theta = th; obj.eta = et
+            else:
+                obj.eta = et; obj.theta = th
+            fresh = ClaytonCopula(theta=th, eta=et)
+            desc = ["clayton", th, et]
+            hist = dict(reassigned=True, constructed_with=[th0, et0], step=step)
+            TH, ET = rlit(th), rlit(et)
+            vecs = [v for d in (2, 3) for v in itertools.product([-INF, -25.0, -1.25, 0.0, 0.25, 2.5, INF], repeat=d) if not all_inf(v)]
+            rng.shuffle(vecs)
+            for us in vecs[:120]:
+                with np.errstate(all="ignore"):
+                    got, want = float(obj(np.array(us))), float(fresh(np.array(us)))
+                res.count(("reassign-val", start, step, us), kind="clayton value after re-assigning theta / eta")
+                if got != want and not (math.isnan(got) and math.isnan(want)):
+                    viol("after re-assigning theta / eta the copula differs from a freshly constructed copula with the same parameters", kind="reassigned",
+                         entry="__call__", copula=desc, us=list(us), got=got, fresh=want, **hist)
+            for us in vecs[:6]:
+                with np.errstate(all="ignore"):
+                    v = float(obj(np.array(us)))
+                if math.isfinite(v):
+                    iv_cases.append(f"Rabs (clayton {TH} {ET} {lst([erlit(x) for x in us])} - {rlit(v)}) <= {rlit(tol_of(v))}")
+            for d in (2, 3):
+                for k in range(d):
+                    g = margin(obj, [k], d)
+                    for u in (-25.0, -0.5, 0.25, 37.5):
+                        with np.errstate(all="ignore"):
+                            v = float(g(np.array([u])))
+                        res.count(("reassign-margin", start, step, d, k, u), kind="clayton margin after re-assigning theta / eta")
+                        if not abs(v - u) <= 1e-9 * max(1.0, abs(u)):
+                            viol("one-dimensional margin is not the identity", kind="margin", copula=desc, dim=d, indices=[k], u=[u], got=v, **hist)
+            f = cop_fun(obj)
+            for (a, b) in (((-3.0, 0.25), (-0.5, INF)), ((-INF, -1.25), (1.0, -0.5)), ((0.25, 0.25, -3.0), (2.5, 1.0, -0.5)), ((-1.25, -INF, 0.0), (1.0, 2.5, INF))):
+                with np.errstate(all="ignore"):
+                    v = float(volume(f, a, b))
+                res.count(("reassign-vol", start, step, a, b), kind="clayton volume after re-assigning theta / eta")
+                if not (v >= -1e-9):
+                    viol("negative (or nan) volume of a rectangle", kind="increasing", copula=desc, a=list(a), b=list(b), got=v, **hist)
+            for eps in (-1.0, 0.6):
+                for x in (-3.0, -0.5, 0.25, 40.0, INF, -INF):
+                    with np.errstate(all="ignore"):
+                        got = float(obj.conditional_distribution(eps, np.array([x]))[0]); want = float(fresh.conditional_distribution(eps, np.array([x]))[0])
+                    res.count(("reassign-cond", start, step, eps, x), kind="clayton conditional distribution after re-assigning")
+                    if got != want:
+                        viol("after re-assigning theta / eta the copula differs from a freshly constructed copula with the same parameters", kind="reassigned",
+                             entry="conditional_distribution", copula=desc, eps=eps, x=x, got=got, fresh=want, **hist)
+                if 0 < et < 1:
+                    for u in (0.05, 0.5, 0.95):
+                        if min(abs(u - et), abs(u - 1 + et)) < 1e-3:
+                            continue
+                        with np.errstate(all="ignore"):
+                            got = float(obj.inverse_conditional_distribution(np.array([eps]), np.array([u]))[0])
+                            want = float(fresh.inverse_conditional_distribution(np.array([eps]), np.array([u]))[0])
+                        if got != want:
+                            viol("after re-assigning theta / eta the copula differs from a freshly constructed copula with the same parameters",
+                                 kind="reassigned", entry="inverse_conditional_distribution", copula=desc, eps=eps, u=u, got=got, fresh=want, **hist)
+            for us in ((1.5, 0.8), (-1.2, 0.4), (1.0, 1.1, 0.9)):
+                with np.errstate(all="ignore"):
+                    got, want = float(obj.x_first_derivative(np.array(us))), float(fresh.x_first_derivative(np.array(us)))
+                if got != want:
+                    viol("after re-assigning theta / eta the copula differs from a freshly constructed copula with the same parameters", kind="reassigned",
+                         entry="x_first_derivative", copula=desc, us=list(us), got=got, fresh=want, **hist)
+
     # the dependent copula's conditional_distribution (counts the +inf entries of x): exercised, values 0 / 1 / 2
     depc = CM.make_copula(["dep"])
     for x, want in ((np.array([1.0]), 0), (np.array([INF]), 1), (np.array([INF, INF]), 2), (np.array([-INF, 3.0]), 0)):
@@ -411,6 +484,21 @@ def replay(path):
     cop = CM.make_copula(data["copula"])
     kind = data.get("kind")
     with np.errstate(all="ignore"):
+        if kind == "reassigned" or data.get("reassigned"):
+            from rpylib.distribution.levycopula import ClaytonCopula
+            th0, et0 = data["constructed_with"]
+            obj = ClaytonCopula(theta=th0, eta=et0)
+            obj(np.array([1.0, -2.0]))
+            obj.theta = data["copula"][1]; obj.eta = data["copula"][2]
+            fresh = CM.make_copula(data["copula"])
+            us = np.array(data.get("us") or [data.get("u", [1.0])[0] if isinstance(data.get("u"), list) else 1.0, INF], dtype=float)
+            if data.get("kind") == "margin":
+                v = float(margin(obj, list(data["indices"]), data["dim"])(np.array(data["u"], dtype=float)))
+                print("margin of the re-assigned copula =", v, "expected", data["u"][0])
+                return 0 if abs(v - data["u"][0]) <= 1e-9 * max(1, abs(data["u"][0])) else 1
+            a, b = float(obj(us)), float(fresh(us))
+            print(f"constructed with {th0, et0}, re-assigned to {data['copula'][1:]}: copula({list(us)}) = {a}; fresh copula: {b}")
+            return 0 if a == b else 1
         if kind in ("grounded", "value"):
             v = float(cop(np.array(data["us"], dtype=float)))
             print("copula(us) =", v)
